@@ -347,7 +347,7 @@ theorem C17_roundTimeout_eq (c : Cfg) (h r now : Nat) :
 namespace Ctl
 
 def exState : State :=
-  { height := 7, cap := 2, cutoff := 15,
+  { height := 7, cap := 2, cutoff := 15, running := some 7,
     insts := [⟨7, 3, false, false⟩, ⟨6, 2, true, true⟩] }
 
 /-- (5) a timeout event for an unknown height, for a lower round than the instance's, or for a decided instance
@@ -382,6 +382,31 @@ theorem C17_unprocessable_timeout_noop (s : State) (h r : Nat) :
   · split
     · simp
     · simp [hc]
+
+/-- (5') "another height", for whole controller histories: after ANY sequence of StartNewInstance / decided
+    messages (past, current, FUTURE heights — several stored instances at once, eviction by capacity) /
+    timeout events, a timeout event for any height other than the one most recently started changes nothing —
+    whatever its round, whether or not that height is stored. `Controller.OnTimeout` has no height check;
+    this rests on the invariant `OthersQuiet` (every other stored instance is force-stopped or decided). -/
+theorem C17_other_height_timeout_noop (cap cutoff : Nat) (ops : List Op) (h r : Nat)
+    (hother : (run (init cap cutoff) ops).1.running ≠ some h) :
+    let s := (run (init cap cutoff) ops).1
+    (step s (.timeout h r)).1 = s ∧ (step s (.timeout h r)).2.bcast = 0 ∧ (step s (.timeout h r)).2.arms = [] := by
+  intro s
+  have hq : OthersQuiet s := othersQuiet_run _ ops (othersQuiet_init cap cutoff)
+  cases hf : find s.insts h with
+  | none => exact C17_stale_timeout_noop s h r (Or.inl hf)
+  | some i =>
+    obtain ⟨hmem, hh⟩ := find_mem _ _ _ hf
+    rcases hq i hmem (by rw [hh]; exact hother) with hs | hd
+    · exact (C17_unprocessable_timeout_noop s h r).2.2.2 i hf (by simp [canProcess, hs])
+    · exact C17_stale_timeout_noop s h r (Or.inr ⟨i, hf, Or.inr hd⟩)
+
+/-- the coordinator's scenario: 10 started, FUTURE height 12 decided from the network, 13 started — three stored
+    instances, 10 is stopped although it is not the direct predecessor of 13 -/
+example : (run (init 1024 15) [.start 10, .decide 12 1, .start 13]).1.insts =
+    [⟨13, 1, false, false⟩, ⟨12, 1, true, true⟩, ⟨10, 1, false, true⟩] := by decide
+example : (run (init 1024 15) [.start 10, .decide 12 1, .start 13]).1.running ≠ some 10 := by decide
 
 /-- a timeout that is NOT stale (round ≥ the instance's round, undecided, still processing) broadcasts one
     round-change, bumps exactly that instance by one round and re-arms the timer for the new round, which is
